@@ -165,7 +165,9 @@ def phase1Stages : List Stage := [.readHeader, .tryContains, .checkPrefix, .iden
 def phase2Stages : List Stage := [.readClock, .parseFixed, .addSalt, .commit, .readBody]
 def handleStages : List Stage := phase1Stages ++ phase2Stages
 
-/-- The accept logic of `HandleStream` for one presentation at instant `now`. -/
+/-- The accept logic of `HandleStream` for one presentation. `now` is the clock reading the code takes *after* the first
+read returned (stage `readClock` follows `readHeader`…`openFixed`, pinned by `gen_handle_stages`): the instant at which
+the request bytes arrived, not the instant at which the (possibly idle) connection was handed to the server. -/
 def handle (P : Params) (contended : Bool) (now : Nat) (r : Request) (pool : Pool) : Pool × Verdict :=
   runStages P contended now r handleStages pool
 
